@@ -25,11 +25,13 @@ import (
 	"errors"
 	"fmt"
 	"runtime"
+	"runtime/debug"
 	"strconv"
 	"strings"
 	"sync"
 	"sync/atomic"
 	"testing"
+	"testing/synctest"
 	"time"
 
 	"github.com/centrifugal/centrifuge/internal/queue"
@@ -651,6 +653,26 @@ func vfC12WFlat(calls []vfC12WCall) []int {
 	return out
 }
 
+
+// vfC12WBubble is vfBubble with the two GC cycles made optional: they are only needed when the code under test
+// returned bubble-bound timers to the internal/timers sync.Pool, and forced GCs dominate the cost of a case.
+func vfC12WBubble(t *testing.T, gc bool, f func() string) string {
+	var out string
+	synctest.Test(t, func(st *testing.T) {
+		defer func() {
+			if r := recover(); r != nil {
+				out = fmt.Sprintf("PANIC: %v\n%s", r, debug.Stack())
+			}
+		}()
+		out = f()
+	})
+	if gc {
+		runtime.GC()
+		runtime.GC()
+	}
+	return out
+}
+
 func TestVF_C12_Writer(t *testing.T) {
 	// Two Ps: the harness goroutine and the writer's goroutine (run loop / timer callback / async worker) still run
 	// in parallel, while bubble hand-offs stay cheap.
@@ -666,7 +688,7 @@ func TestVF_C12_Writer(t *testing.T) {
 		}
 		c.Describe(sb.String())
 		var stt vfC12WStats
-		msg := vfBubble(t, func() string { return vfC12WRun(cfg, steps, &stt) })
+		msg := vfC12WBubble(t, cfg.Mode == 1, func() string { return vfC12WRun(cfg, steps, &stt) }) // only the delay goroutine uses pooled timers
 
 		c.Label("part=writer")
 		c.Labelf("writer:mode=%d", cfg.Mode)
@@ -750,7 +772,7 @@ func TestVF_C12_WriterConcurrent(t *testing.T) {
 		c.Labelf("writerc:mode=%d", cfg.Mode)
 
 		multi := false
-		msg := vfBubble(t, func() string {
+		msg := vfC12WBubble(t, cfg.Mode == 1, func() string {
 			rec := &vfC12WRec{closers: map[uint64]bool{}}
 			w := newWriter(writerConfig{
 				MaxQueueSize: cfg.MaxQ,
